@@ -58,7 +58,8 @@ def a_num(rng):
 
 
 ESC_PIECES = ['\\x0d', '\\x04', '\\xff', '\\x8d', '\\x07', '\\x0a', '\\x5c', '\\x5cx41', '\\x41', '\\x7f', '\\x22' if False else '\\x1b',
-              '\\', '\\\\', '\\xZ1', '\\x4', '\\y', '\\x5cx5c', '\\X0D', '\\x5Cx0d']
+              '\\', '\\\\', '\\xZ1', '\\x4', '\\y', '\\x5cx5c', '\\X0D', '\\x5Cx0d',
+              '\\x5cxFF', '\\x5CxA9', '\\x5cxfF', '\\x5cxFf', '\\x5cxaB', '\\x5cxC0', '\\x5cx4A', '\\x5cxa4']      # a literal backslash in front of x and two hex digits of either case
 ESC_LEVEL = [0.15]     # probability that a string-like payload carries escape pieces (raised by the escape stream)
 
 
